@@ -226,8 +226,18 @@ func runCase(t *rapid.T) {
 			sp := n0.DrawSpec(t, opts, fl)
 			if bigBlocks && rapid.Bool().Draw(t, "big") {
 				sp.Txs = nil
-				for j := 0; j < rapid.IntRange(3, 12).Draw(t, "bigTxs"); j++ {
-					sp.Txs = append(sp.Txs, node.MakeTx(10+j%4, uint64(i*100+j), 1000, node.TxOK, 1, rapid.IntRange(4000, 13000).Draw(t, "bigPad")))
+				if rapid.Bool().Draw(t, "manySmall") {
+					// size in NUMBER of records rather than bytes (seeded change C13-w wrote the transaction bodies of blocks with more
+					// than 64 transactions in a synced write of their own): 65-140 small transactions
+					cnt := rapid.IntRange(65, 140).Draw(t, "manyTxs")
+					for j := 0; j < cnt; j++ {
+						sp.Txs = append(sp.Txs, node.MakeTx(10+j%4, uint64(i*1000+j), 1000, node.TxOK, 1, 0))
+					}
+					fl["many-transactions"] = true
+				} else {
+					for j := 0; j < rapid.IntRange(3, 12).Draw(t, "bigTxs"); j++ {
+						sp.Txs = append(sp.Txs, node.MakeTx(10+j%4, uint64(i*100+j), 1000, node.TxOK, 1, rapid.IntRange(4000, 13000).Draw(t, "bigPad")))
+					}
 				}
 				fl["big-batch"] = true
 				fl["txs"] = true
@@ -381,6 +391,9 @@ func runCase(t *rapid.T) {
 		records := len(flagsPer[j])
 		if flagsPer[j]["big-batch"] {
 			evid.R.Label("target-step-big-batch", 1)
+		}
+		if flagsPer[j]["many-transactions"] {
+			evid.R.Label("target-step-more-than-64-transactions", 1)
 		}
 		evid.R.Case(fmt.Sprintf("%s|target=%d|k=%d", strings.Join(hist, "|"), j, k), inside && (records >= 2 || steps[j].Kind != "apply"), func() any {
 			return map[string]any{"kind": "crash", "history": hist, "targetStep": j, "crashPoint": k, "fsOpsInStep": K, "landed": landed}
